@@ -118,6 +118,10 @@ CHECKS = {
          "Three seeded modes behind the production SQL engine. (a) Cluster data plane: the real cluster commit hook (replicate loop, retry back-off, ticker, heartbeat, wait functions, circuit breaker) is installed on the primary's database as the controller installs it; its destination is a standby store (file-manifest or journaling) served by the real remotesrv gRPC service and HTTP file handler behind the simulated network, every exchange passing a gate the run controls; steps interleave primary writes (working-set DML, commits, branches; replication acknowledgement switched on and off) with 'n exchanges may pass', partitions, lossy delivery (lost before/after delivery, duplicated), standby-server restarts and simulated time. At every quiescent point the standby's store, re-opened from disk, shows a root the primary's store has committed (recorded at the store's Commit), never an older one than before, closed under references; a write acknowledged without a replication warning is on the standby; after faults stop the hook is caught up and the standby is at the primary's root within 40 simulated seconds. (b) Push-on-write + read replica over a file or HTTP remote with remote disk faults, network faults and remote restarts: a head-moving statement that returned with nothing reported has its head on the remote; the replica never shows a head the remote has not had; without faults a new replica transaction shows exactly the remote's heads. (c) Standby flag of the database provider toggled: 22 kinds of write through fresh sessions must change nothing while it is a standby.",
          "Not covered: the graceful role-transition protocol of cluster.Controller (control-plane gRPC service, JWT interceptors and process-global system variables do not fit two controllers into one address space) - the clause on writes acknowledged before a graceful transition is decided only as far as the hook's acknowledgement / catch-up logic the transition waits on; asynchronous push-on-write; users/grants and branch-control replication. The hook's goroutines run freely between gate passages (the run waits for quiescence after each step). Six known findings (version-control procedures accepted on a standby) are listed in known_findings.txt.",
          "deterministic simulation: real commit hook + remotesrv over a gated simulated network with partitions, loss, duplication, restarts and a fake clock; root-history, reference-walk, acknowledgement and bounded-liveness oracles", "DESIGN.md §6.2 C45", "dsim-sql"),
+ "C39": ("exploration",
+         "Claimed for the clock and the file-access parts. The real singleSymmetricKeySealer, the real HTTP file handler and the real LocalCSCache of the stand-alone remote server (its source file compiled into the harness through the overlay) run on the simulated OS with the sealer's clock under the run's control. Seeded cases: a generated URL is sealed at sealer time S and unsealed at unsealer time U placed at, just inside, just outside and far from both ends of the window the sealed URL carries (skew and jumps in both directions): it must unseal to the original path and query and be accepted iff nbf <= U <= exp; single-field mutations (path, sealed payload, nonce, nbf, exp, dropped field) inside the window must be refused. Sealed GET / POST / PUT requests whose inner paths try to leave the configured root (dot segments, percent-encoded separators, doubled slashes, via the repository part or the file part), and unsealed or outer-path-tampered ones, are served while every file operation is observed at the OS seam: nothing outside the root may be touched, a 200 to a GET carries bytes of a file inside the root (never of decoy files beside and above it), unsealed or tampered requests are refused.",
+         "The URL generator and field mutations are input generation and ride along as workload; what the simulator adds is the two clocks and the observation of file accesses. Two genuine defects found by this check were repaired by fix: commits (upload path traversal bab105f, double escaping in the sealer be64daa); one harmless finding (paths beginning with '//') is listed in known_findings.txt. The sql-server's own database cache (names -> open databases) is not the subject: it derives no path from the request.",
+         "deterministic simulation: injected sealer/unsealer clocks (skew, forward and backward jumps), OS-level observation of every file operation of the real handler, decoy-file and window oracles", "DESIGN.md §6.2 C39", "dsim-sql"),
  "C27": ("exploration",
          "2-3 sessions on main plus one on branch b1 behind the production SQL engine, one keyless table with a secondary index; seeded multi-row INSERT of duplicates, DELETE/UPDATE ... LIMIT n, COMMIT/ROLLBACK, edits on b1, CALL dolt_merge('b1'), clean restarts; a multiset reference model per session and branch predicts every GROUP BY over all columns, COUNT(*) and index lookup; transaction commits and branch merges must combine multiplicity changes row by row and must refuse/report when both sides changed the multiplicity of one row differently.",
          "Refusals for convergent changes (both sides made the same change) are dolt being conservative and are counted, not reported. dolt_merge runs under autocommit (conflicts => rolled back + error); the dolt_conflicts table contents are C43 (pure).",
